@@ -463,11 +463,18 @@ def plan_C13(ctx):
     exe = vbuild.spline_replay()
     r = gen.Rng(ctx.seed * 1000003 + 13)
     execs = []
-    for rep in range(1 if ctx.quick() else 20):
-        for order in gen.ORDERS:
-            for dim in range(1, 11):
+    # every order x dimension 1..10 with generic data, then every order x every kind of special coordinate (identically zero, constant,
+    # at rest, equal consecutive waypoints, dwelling on the first / last waypoint at rest) in dimensions 2..4: shortcuts decided on whole
+    # rows or on one coordinate's data couple the coordinates or break the one-dimensional problem
+    combos = [(rep, order, dim, None) for rep in range(1 if ctx.quick() else 20) for order in gen.ORDERS for dim in range(1, 11)]
+    combos += [(rep, order, 2 + (q + rep) % 3, sp) for rep in range(1 if ctx.quick() else 6) for order in gen.ORDERS for q, sp in enumerate(gen.Rng.SPECIALS)]
+    for (rep, order, dim, sp) in combos:
+        if True:
+            if True:
                 n = (1, 2, 3, 4)[(dim + rep + order) % 4] if rep < 4 else r.choice([1, 2, 3, 4, 5])
-                pr = r.problem(order, dim, n, dcls=r.choice(["grid", "real"]), dyadic=None if (order + 1) * n <= 16 else True)
+                if sp:
+                    n = (3, 4, 5)[(rep + order) % 3]
+                pr = r.problem(order, dim, n, dcls=r.choice(["grid", "real"]), dyadic=None if (order + 1) * n <= 16 else True, special=sp)
                 gc, gt = upstream(r, order, n, dim, "dense")
                 cmds = [{"op": "reset"}, gen.build_cmd(1, pr, "ctor_durs", 6), {"op": "energy", "obj": 1}, {"op": "egrad", "obj": 1},
                         prop_cmd(1, gc, gt)]
